@@ -141,6 +141,7 @@ func nf(s string) string {
 //@   ensures spec: r == !specUnreserved(c)
 
 //@ func NormalizeEscapedPath(s string) (out string, ok bool)
+//@   pure
 //@   ensures verdict:   ok == wellEscaped(s)
 //@   ensures nf:        ok ==> out == nf(s)
 //@   ensures rejected:  !ok ==> out == ""
